@@ -8,7 +8,9 @@ import Driver.BuildDrv
 namespace Driver
 open PieModel FileRes
 
-def fileContent (size seed : Nat) : List Nat := (List.range size).map fun i => (seed * 31 + i * 7) % 251
+def fileContent (size seed : Nat) : List Nat :=
+  if seed ≥ 100 then List.replicate size (seed - 100)     -- uniform content: files differing only in length
+  else (List.range size).map fun i => (seed * 31 + i * 7) % 251
 def byteSum (b : List Nat) : Nat := b.foldl (fun a x => (a * 31 + x) % 1000003) 0
 
 inductive FStamp | e (b : Bool) | m (t : Option Nat) | h (k : Option Nat)
